@@ -83,7 +83,7 @@ ERR_CLASSES = {
 }
 
 # classes an `except` may name: Err is a flat enum, so only classes none of whose sub-/superclasses are in Err
-CATCHABLE = {"IndexError"}
+CATCHABLE = {"IndexError", "ResourceNotFound"}
 
 LEAN_KEYWORDS = {
     "prefix", "infix", "infixl", "infixr", "postfix", "from", "at", "end", "open", "instance", "where", "fun",
@@ -129,6 +129,14 @@ NONE = "none"            # the type of the literal None inside a conditional exp
 BYTES = "bytes"          # a bytes value (what read() returns): Fs.Bytes
 READER = "reader"        # a file object open for reading: Fs.File.Reader (remaining data + short-read oracle)
 WRITER = "writer"        # a file object open for writing: the bytes written so far
+FSSTAT = "fsstat"        # a filesystem object *as far as one path is concerned*: Option (Option Int) = not found /
+                         # found with its (optional) modification time
+INFOREC = "inforec"      # an Info object as (size, modified): Nat x Option Int
+ANY = "any"              # a dynamically typed value of a raw info dictionary: Fs.Info.JVal (modules with `dynamic`)
+RAWD = "rawdict"         # the raw info dictionary: Fs.Info.Raw (namespace -> NS)
+NSD = "nsdict"           # one namespace of it: Fs.Info.NS (key -> JVal)
+DTM = "datetime"         # a datetime object: Fs.Info.DT
+PERMS = "permissions"    # a Permissions object: Fs.Info.Permissions
 STRSET = ("set", STR)     # a Python set of strings; in Lean a `List Str` whose order and multiplicity are not observable
 
 
@@ -172,6 +180,12 @@ def lean_type(t):
         return "Bytes"
     if t == READER:
         return "File.Reader"
+    if t == FSSTAT:
+        return "Option (Option Int)"
+    if t in _DYN_LEAN:
+        return _DYN_LEAN[t]
+    if t == INFOREC:
+        return "(Nat × Option Int)"
     if isinstance(t, tuple) and t[0] == "opt":
         return "Option %s" % (lean_type(t[1]) if " " not in lean_type(t[1]) else "(%s)" % lean_type(t[1]))
     if isinstance(t, tuple) and t[0] == "fn":
@@ -184,9 +198,16 @@ def lean_type(t):
     raise AssertionError(t)
 
 
+_DYN_LEAN = {ANY: "Info.JVal", RAWD: "Info.Raw", NSD: "Info.NS", DTM: "Info.DT", PERMS: "Info.Permissions"}
+# static types with a JVal constructor
+_TO_ANY = {STR: "Info.JVal.str", BOOL: "Info.JVal.bool", INT: "Info.JVal.int"}
+
+
 def join_types(a, b):
     if a == b:
         return a
+    if ANY in (a, b) and (a in (STR, BOOL, INT, NAT, NONE, ANY) and b in (STR, BOOL, INT, NAT, NONE, ANY)):
+        return ANY
     if {a, b} == {NAT, INT}:
         return INT
     if a == NONE and b != NONE:
@@ -220,6 +241,12 @@ def lean_char(c):
     if 32 <= o < 127:
         return "'%s'" % c
     return "'\\u{%x}'" % o
+
+
+def lean_str_lit(s):
+    """a Lean `String` literal (identifiers only)"""
+    assert s.replace("_", "a").isalnum(), s
+    return '"%s"' % s
 
 
 def lean_str(s):
@@ -426,6 +453,15 @@ class FnTranslator:
     def coerce(self, text, frm, to, node):
         if frm == to:
             return text
+        if to == ANY:
+            if frm in _TO_ANY:
+                return "(%s %s)" % (_TO_ANY[frm], text)
+            if frm == NAT:
+                return "(Info.JVal.int (Int.ofNat %s))" % text
+            if frm in (NONE, UNIT) and text in ("none", "()"):
+                return "Info.JVal.null"
+            if frm == ttuple():
+                return "(Info.JVal.list [])"
         if frm == NAT and to == INT:
             return "(Int.ofNat %s)" % text
         if frm == NONE and isinstance(to, tuple) and to[0] == "opt":
@@ -482,8 +518,9 @@ class FnTranslator:
         if len(ptypes) != len(allnames):
             self.refuse(f, "type comment has %d parameter types for %d parameters" % (len(ptypes), len(allnames)))
         params = []
+        override = getattr(self.m, "param_types", {}).get(self.f.name, {})
         for n, t in zip(names, ptypes):
-            params.append((n, t))
+            params.append((n, override.get(n, t)))
         vararg = False
         if a.vararg:
             params.append((a.vararg.arg, tlist(ptypes[-1])))
@@ -502,6 +539,8 @@ class FnTranslator:
             elif isinstance(d, ast.Constant) and d.value is None and isinstance(dict(params).get(n), tuple) \
                     and dict(params)[n][0] == "opt":
                 defaults[n] = "none"
+            elif isinstance(d, ast.Constant) and d.value is None and dict(params).get(n) == ANY:
+                defaults[n] = "Info.JVal.null"
             elif self.is_charset_ctor(d):
                 const_params[n] = d
             else:
@@ -521,6 +560,21 @@ class FnTranslator:
                 return BOOL
             if t.id == "int":
                 return INT
+            if t.id == "FS" and self.f.name in getattr(self.m, "fs_roles", {}):
+                return FSSTAT
+            if t.id == "Info" and self.f.name in getattr(self.m, "info_roles", ()):
+                return INFOREC
+            if getattr(self.m, "dynamic", False):
+                if t.id in ("Any", "T"):
+                    return ANY      # `T` is the TypeVar of `get`'s default
+                if t.id == "datetime":
+                    return DTM
+                if t.id == "Permissions":
+                    return PERMS
+                if t.id == "ResourceType":
+                    return NAT      # the enum member, as its value
+            if t.id == "datetime":
+                return INT          # a point in time, as the integer the hand models use
             if t.id == "IO":
                 role = getattr(self.m, "io_roles", {}).get(self.f.name, [])
                 k = self._io_seen = getattr(self, "_io_seen", 0) + 1
@@ -537,7 +591,8 @@ class FnTranslator:
             if t.value.id in ("List", "Iterable"):
                 return tlist(self.pytype(t.slice))
             if t.value.id == "Optional":
-                return topt(self.pytype(t.slice))
+                inner = self.pytype(t.slice)
+                return ANY if inner == ANY else topt(inner)     # None is a JVal
             if (t.value.id == "Callable" and isinstance(t.slice, ast.Tuple) and len(t.slice.elts) == 2
                     and isinstance(t.slice.elts[0], ast.List)):
                 return tfn([self.pytype(x) for x in t.slice.elts[0].elts], self.pytype(t.slice.elts[1]))
@@ -607,7 +662,7 @@ class FnTranslator:
                 continue
         assert result is not None
         raises, text = result
-        return FuncInfo(self.f.name, None, real_params, ret, raises, vararg, defaults), text
+        return FuncInfo(self.f.name, None, real_params, self.ret_type, raises, vararg, defaults), text
 
     SET_MUTATORS = ("update", "add", "difference_update", "discard")
 
@@ -705,6 +760,11 @@ class FnTranslator:
                 self.refuse(st, "bare `return` in a function returning a value")
             return ctx.ret("()")
         text, ty = self.E(st.value, env, expect=self.ret_type)
+        if ty == ANY and self.ret_type != ANY and getattr(self.m, "dynamic", False) and self.ret_type != UNIT:
+            # the annotation of a function that hands out a raw value is a claim about well-formed raw data, not a
+            # run-time check (`cast` returns its argument): the translated function returns the raw value
+            self.ret_type = ANY
+            self.changed = True
         text = self.coerce(text, ty, self.ret_type, st)
         return self.wrap_binds(ctx, mark, ctx.ret(text))
 
@@ -722,8 +782,8 @@ class FnTranslator:
                 self.refuse(exc, "keyword argument of the exception constructor")
         elif isinstance(exc, ast.Name):
             cls = exc.id
-        if cls not in ERR_CLASSES:
-            self.refuse(st, "exception class `%s` has no counterpart in FsModel.Basic.Err" % cls)
+        if cls not in getattr(self.m, "err_classes", ERR_CLASSES):
+            self.refuse(st, "exception class `%s` has no counterpart in the module's error type" % cls)
         return ctx.raise_(cls)
 
     def harmless_exc_arg(self, a):
@@ -1276,22 +1336,49 @@ class FnTranslator:
             return self.S(modulo, env, ctx, cont)
         if isinstance(ctx, PureCtx):
             raise NeedRes()
-        if st.finalbody or st.orelse or len(st.handlers) != 1:
-            self.refuse(st, "try with finally / else / several handlers")
+        if st.finalbody or len(st.handlers) != 1:
+            self.refuse(st, "try with finally / several handlers")
+        if len(st.body) == 1 and isinstance(st.body[0], ast.Return) and st.body[0].value is not None and not st.orelse:
+            # `try: return e  except K: ...`  =  `try: v = e  except K: ...  else: return v`
+            tmpname = "try_value"
+            if any(isinstance(n, ast.Name) and n.id == tmpname for n in ast.walk(self.f)) or tmpname in env:
+                self.refuse(st, "`return` inside a `try` body (the helper name `%s` is taken)" % tmpname)
+            asg = ast.Assign(targets=[ast.Name(id=tmpname, ctx=ast.Store())], value=st.body[0].value)
+            retn = ast.Return(value=ast.Name(id=tmpname, ctx=ast.Load()))
+            new = ast.Try(body=[asg], handlers=st.handlers, orelse=[retn], finalbody=[])
+            for x in (asg, retn, new):
+                ast.copy_location(x, st.body[0])
+            ast.fix_missing_locations(new)
+            return self.S_Try(new, env, ctx, cont)
         h = st.handlers[0]
-        if not isinstance(h.type, ast.Name) or h.type.id not in CATCHABLE or h.name is not None:
+        if not isinstance(h.type, ast.Name) or h.type.id not in getattr(self.m, "catchable", CATCHABLE) or h.name is not None:
             self.refuse(h, "except clause (only `except IndexError:` without a name: Err has no class hierarchy, "
                            "so catching a class with subclasses, e.g. ValueError > IllegalBackReference, is not modelled)")
         if self.has_return(st.body):
             self.refuse(st, "`return` inside a `try` body")
         if not h.body or not isinstance(h.body[-1], (ast.Raise, ast.Return)):
             self.refuse(h, "an `except` block that falls through")
-        state = [n for n in self.mutated_names(st.body) if n in env]
-        tup, typ, _ = self.state_texts(state, env)
+        # the variables the body assigns (also new ones: an `else` block / the continuation may read them)
+        # (names bound only inside a loop of the body are not in scope where the body ends)
+        cands = list(self.mutated_names(st.body))
+        box = {}
+
+        def fall(e):
+            names = [n for n in cands if n in e]
+            if box.setdefault("state", names) != names:
+                self.refuse(st, "the `try` body ends with different sets of variables on different paths")
+            return "(.ok %s)" % self.state_texts(names, e)[0]
+
         tctx = TryCtx()
-        body = self.S(st.body, dict(env), tctx, lambda e: "(.ok %s)" % tup)
+        body = self.S(st.body, dict(env), tctx, fall)
+        state = box.get("state", [n for n in cands if n in env])
+        env_after = self.env_with_joined(env, state)
+        if any(env_after.get(n) is None for n in state):
+            self.refuse(st, "a variable assigned in the `try` body has no type yet")
+        tup, typ, _ = self.state_texts(state, env_after)
         handler = self.S(h.body, dict(env), ctx, lambda e: self.refuse(h, "an `except` block that falls through"))
-        after = cont(self.env_with_joined(env, state))
+        # `else:` runs after a body that raised nothing; an exception inside it is not caught by the handler
+        after = self.S(list(st.orelse), env_after, ctx, cont)
         return ("(match (%s : Res (%s)) with\n  | .ok %s =>\n%s\n  | .err .%s =>\n%s\n  | .err e' => %s)"
                 % ("\n" + ind(body, 4), typ, tup, ind(after, 4), h.type.id, ind(handler, 4), ctx.reraise("e'")))
 
@@ -1328,6 +1415,8 @@ class FnTranslator:
                 return "(!%s)" % text
             if ty == STR or (isinstance(ty, tuple) and ty[0] == "list"):
                 return "%s.isEmpty" % self.atom(text)
+            if ty == ANY:
+                return "(!Info.JVal.truthy %s)" % self.atom(text)
             self.refuse(e, "truth value of a %s" % (ty,))
         if isinstance(e, ast.BoolOp):
             op = "&&" if isinstance(e.op, ast.And) else "||"
@@ -1347,6 +1436,8 @@ class FnTranslator:
             return "(%s != 0)" % text
         if ty == topt(BOOL):
             return "(%s == some true)" % text
+        if ty == ANY:
+            return "(Info.JVal.truthy %s)" % self.atom(text)
         self.refuse(e, "truth value of a %s" % (ty,))
 
     def atom(self, text):
@@ -1439,6 +1530,8 @@ class FnTranslator:
             self.refuse(e, "attribute `self.%s`" % e.attr)
         if self.self_param and isinstance(e.value, ast.Name) and e.value.id == "cls" and e.attr in self.m.class_consts:
             return self.m.class_consts[e.attr]
+        if isinstance(e.value, ast.Name) and env.get(e.value.id) == INFOREC and e.attr in ("size", "modified"):
+            return ("%s.1" % lean_ident(e.value.id), NAT) if e.attr == "size" else ("%s.2" % lean_ident(e.value.id), topt(INT))
         if isinstance(e.value, ast.Name) and e.value.id == "six" and e.attr == "PY2":
             return "false", BOOL      # Python 3 (trusted base: the interpreter under test is CPython 3)
         self.refuse(e, "attribute access")
@@ -1451,7 +1544,31 @@ class FnTranslator:
             return "(%d : Int)" % (-e.operand.value), INT
         self.refuse(e, "unary operator")
 
+    def none_test(self, v, env):
+        """`name is None` / `name is not None` on an optional variable: (name, is_none) or None"""
+        if (isinstance(v, ast.Compare) and len(v.ops) == 1 and isinstance(v.ops[0], (ast.Is, ast.IsNot))
+                and isinstance(v.left, ast.Name) and isinstance(v.comparators[0], ast.Constant)
+                and v.comparators[0].value is None and isinstance(env.get(v.left.id), tuple) and env[v.left.id][0] == "opt"):
+            return v.left.id, isinstance(v.ops[0], ast.Is)
+        return None
+
     def E_BoolOp(self, e, env, expect):
+        # `x is None or REST` (`x is not None and REST`): REST is evaluated with x narrowed to its value
+        nt = self.none_test(e.values[0], env)
+        if nt is not None and len(e.values) >= 2 and nt[1] == isinstance(e.op, ast.Or):
+            name, _ = nt
+            rest = e.values[1] if len(e.values) == 2 else ast.BoolOp(op=e.op, values=e.values[1:])
+            env2 = dict(env)
+            env2[name] = env[name][1]
+            mark = len(self.binds)
+            r, rty = self.E(rest, env2, expect)
+            if len(self.binds) > mark:
+                raise EffectInCond()
+            if rty != BOOL:
+                self.refuse(e, "`is None` short circuit over a %s" % (rty,))
+            short = "true" if isinstance(e.op, ast.Or) else "false"
+            n = lean_ident(name)
+            return "(match %s with | none => %s | some %s => %s)" % (n, short, n, r), BOOL
         # value semantics: all operands Bool -> &&/||; `s or t` on strings -> pyOr
         vals = []
         for i, v in enumerate(e.values):
@@ -1567,6 +1684,10 @@ class FnTranslator:
             a, aty = self.E(l, env)
             if aty == "match":      # the result of <pattern>.match(s): None or a match object
                 return (a if isinstance(op, ast.IsNot) else "(!%s)" % a), BOOL
+            if isinstance(aty, tuple) and aty[0] == "opt":
+                return ("(Option.isSome %s)" if isinstance(op, ast.IsNot) else "(Option.isNone %s)") % a, BOOL
+            if aty == ANY:
+                return ("(!pyIsNone %s)" if isinstance(op, ast.IsNot) else "(pyIsNone %s)") % a, BOOL
             self.refuse(e, "`is None` test of a %s" % (aty,))
         if isinstance(op, (ast.In, ast.NotIn)):
             a, aty = self.E(l, env)
@@ -1578,6 +1699,13 @@ class FnTranslator:
                 text, ty = self.call_info(self.m.methods["__contains__"], ["self", a], e)
                 return ("(!%s)" % text if neg else text), BOOL
             b, bty = self.E(r, env)
+            if aty == STR and bty == RAWD:
+                text = "(pyDictHas %s %s)" % (b, a)
+                return ("(!%s)" % text if neg else text), BOOL
+            if aty == STR and bty == ANY:
+                t = self.fresh()
+                self.binds.append((t, "pyAnyIn %s %s" % (a, b)))
+                return ("(!%s)" % t if neg else t), BOOL
             if aty == STR and bty == STRSET:
                 text = "(List.contains %s %s)" % (b, a)
             elif aty == STR and bty == STR:
@@ -1667,6 +1795,13 @@ class FnTranslator:
                 proj = ".2" * k + (".1" if k < n - 1 else "")
                 return "%s%s" % (self.atom(v), proj), vty[1][k]
             self.refuse(e, "tuple index that is not a constant in range")
+        if vty == RAWD:
+            k, kty = self.E(s, env, expect=STR)
+            if kty != STR:
+                self.refuse(e, "raw[...] with a key of type %s" % (kty,))
+            t = self.fresh()
+            self.binds.append((t, "pyDictIdx %s %s" % (v, k)))
+            return t, NSD
         i, ity = self.E(s, env, expect=INT)
         i = self.coerce(i, ity, INT, e)
         t = self.fresh()
@@ -1864,6 +1999,14 @@ class FnTranslator:
             if n in self.m.funcs:
                 info = self.m.funcs[n]
                 return self.call_function(info, e, env)
+            if getattr(self.m, "dynamic", False) and n == "cast" and len(e.args) == 2 and not e.keywords:
+                return self.E(e.args[1], env, expect)      # typing.cast returns its argument unchanged
+            if n in getattr(self.m, "dyn_ctors", {}) and len(e.args) == 1 and not e.keywords:
+                fn, rty = self.m.dyn_ctors[n]
+                x, xt = self.E(e.args[0], env, expect=ANY)
+                t = self.fresh()
+                self.binds.append((t, "%s %s" % (fn, self.atom(self.coerce(x, xt, ANY, e)))))
+                return t, rty
             if n == "len" and len(e.args) == 1 and not e.keywords:
                 a, aty = self.E(e.args[0], env)
                 if aty == STR or aty == CHARSET or (isinstance(aty, tuple) and aty[0] == "list"):
@@ -1933,11 +2076,27 @@ class FnTranslator:
             # methods of the class being translated
             if self.self_param and isinstance(f.value, ast.Name) and f.value.id == "self":
                 if meth in self.m.methods and meth not in self.m.properties:
-                    args = ["self"] + [self.E(a, env)[0] for a in e.args]
                     info = self.m.methods[meth]
-                    if len(args) != len(info.params) + 1:
+                    if len(e.args) > len(info.params):
                         self.refuse(e, "argument count of self.%s" % meth)
+                    args = ["self"]
+                    for k, (pn, pt) in enumerate(info.params):
+                        if k < len(e.args):
+                            x, xt = self.E(e.args[k], env, expect=pt)
+                            args.append(self.coerce(x, xt, pt, e.args[k]))
+                        elif pn in info.defaults:
+                            args.append(info.defaults[pn])
+                        else:
+                            self.refuse(e, "argument count of self.%s" % meth)
                     return self.call_info(info, args, e)
+                stored = getattr(self.m, "stored_callables", {})
+                if meth in stored and len(e.args) == 1:
+                    # a callable kept in a field of the object (`self._to_datetime`): an extern of the module
+                    fn, aty0, rty = stored[meth]
+                    x, xt = self.E(e.args[0], env, expect=aty0)
+                    t = self.fresh()
+                    self.binds.append((t, "%s %s" % (fn, self.atom(self.coerce(x, xt, aty0, e)))))
+                    return t, rty
                 self.refuse(e, "call of `self.%s`" % meth)
             # re.escape(s), re.compile(text[, re.IGNORECASE])
             if isinstance(f.value, ast.Name) and f.value.id == "re" and "re" not in env:
@@ -1988,6 +2147,16 @@ class FnTranslator:
                     for p in out[1:]:
                         text = "(%s ++ %s)" % (text, p)
                     return text, STR
+            if isinstance(f.value, ast.Name) and env.get(f.value.id) == FSSTAT and meth in ("getmodified", "exists"):
+                role = getattr(self.m, "fs_roles", {}).get(self.f.name, {})
+                if len(e.args) != 1 or not isinstance(e.args[0], ast.Name) or role.get(f.value.id) != e.args[0].id:
+                    self.refuse(e, "`%s.%s` is asked about something other than its own path parameter" % (f.value.id, meth))
+                obj = lean_ident(f.value.id)
+                if meth == "exists":
+                    return "(Option.isSome %s)" % obj, BOOL
+                t = self.fresh()
+                self.binds.append((t, "pyFsGetModified %s" % obj))
+                return t, topt(INT)
             if isinstance(f.value, ast.Name) and env.get(f.value.id) == READER and meth == "read" and len(e.args) == 1:
                 n, nty = self.E(e.args[0], env, expect=INT)
                 if nty not in (NAT, INT):
@@ -2011,7 +2180,23 @@ class FnTranslator:
                     return "[" + ", ".join(lean_char(c) for c in a.value) + "]"
                 self.refuse(a, "argument of .%s must be a non-empty string literal" % meth)
 
+            if vty == NSD:
+                if meth == "get" and len(args) == 2:
+                    k, kty = self.E(args[0], env, expect=STR)
+                    d, dty = self.E(args[1], env, expect=ANY)
+                    if kty != STR:
+                        self.refuse(e, "dict.get with a key of type %s" % (kty,))
+                    return "(pyDictGet %s %s %s)" % (v, k, self.atom(self.coerce(d, dty, ANY, e))), ANY
+                self.refuse(e, "dict method .%s" % meth)
+            if vty == ANY:
+                # a str method on a dynamically typed value: AttributeError unless it is a str (pyStrMethod knows
+                # which other types have a method of that name)
+                t = self.fresh()
+                self.binds.append((t, "pyStrMethod %s %s" % (lean_str_lit(meth), v)))
+                v, vty = t, STR
             if vty == STR:
+                if meth == "rpartition" and len(args) == 1:
+                    return "(pyRpartition %s %s)" % (v, char_arg(0)), ttuple(STR, STR, STR)
                 if meth in ("startswith", "endswith") and len(args) == 1:
                     a, aty = self.E(args[0], env)
                     if aty != STR:
